@@ -449,6 +449,58 @@ func TestC19(t *testing.T) {
 			}
 		}
 	}
+	// (7) two names resolved together: no plugin twice, and exactly the plugins the two names
+	// resolve to one by one (every ordered pair of registry keys and group names)
+	{
+		type resolver func([]string) ([]string, error)
+		regs := []struct {
+			kind    string
+			names   []string
+			resolve resolver
+		}{
+			{"filesystem", append(append([]string{}, groupNamesFS...), keysOf(el.All)...), func(n []string) ([]string, error) {
+				l, err := el.ExtractorsFromNames(n)
+				return names(l), err
+			}},
+			{"standalone", append(append([]string{}, groupNamesSA...), keysOfSA(sl.All)...), func(n []string) ([]string, error) {
+				l, err := sl.ExtractorsFromNames(n)
+				return names(l), err
+			}},
+			{"detector", append(append([]string{}, groupNamesDet...), keysOfDet(dl.All)...), func(n []string) ([]string, error) {
+				l, err := dl.DetectorsFromNames(n)
+				return names(l), err
+			}},
+		}
+		for _, rg := range regs {
+			single := map[string][]string{}
+			for _, n := range uniqStrings(rg.names) {
+				if l, err := rg.resolve([]string{n}); err == nil {
+					single[n] = l
+				}
+			}
+			ns := make([]string, 0, len(single))
+			for n := range single {
+				ns = append(ns, n)
+			}
+			sort.Strings(ns)
+			for _, a := range ns {
+				for _, b := range ns {
+					got, rerr := rg.resolve([]string{a, b})
+					want := uniqStrings(append(append([]string{}, single[a]...), single[b]...))
+					sort.Strings(want)
+					var err error
+					if rerr != nil {
+						err = fmt.Errorf("%s names [%q %q] do not resolve together: %v", rg.kind, a, b, rerr)
+					} else if strings.Join(got, ",") != strings.Join(want, ",") {
+						err = fmt.Errorf("%s names [%q %q] resolve to %v; one by one they resolve to %v (each plugin once)", rg.kind, a, b, got, want)
+					}
+					if !e.Report(capCase{Check: "resolve_pair", Kind: rg.kind, Name: a + "+" + b}, ev.Outcome{NonTrivial: a != b, Classes: []string{"resolve_pair"}}, err) {
+						return
+					}
+				}
+			}
+		}
+	}
 	// (6) a caller's list is filtered under one environment and then under another: the list
 	// itself is left as it was, and the second result is again exactly the plugins of the list
 	// whose requirements the second environment satisfies (every ordered pair of tuples).
